@@ -490,11 +490,12 @@ def targeted_cases(rng, n):
     # (5) MSZIP (and the other methods) with the repair / salvage parameters on, several blocks: every read fails in turn
     for i in range(max(4, n // 2)):
         meth = [("mszip",), ("qtm", 15), ("mszip",), ("lzx", 16), ("mszip",), ("none",), ("qtm", 17), ("lzx", 17)][i % 8]
-        lens = [rng.choice([33000, 50000]), rng.choice([20000, 40000]), rng.choice([100, 33000])]
+        lens = [33000, 40000, 33000] if i == 0 else [rng.choice([33000, 50000]), rng.choice([20000, 40000]), rng.choice([100, 33000])]     # the first: four blocks, the first member ends well before the last one
         if meth[0] in ("mszip", "none"): fo = cabfmt.Folder(meth, cabfmt.random_members(rng, 3, lens=lens))
         else: fo = cabfmt.Folder(meth, [cabfmt.Member(b"r%d.bin" % j, length=lens[j]) for j in range(3)])
         cab = cabfmt.build_single([fo], rng, with_ck=True)
         sc = scenario.Scn().file("in0.cab", cab).op("cab_new").op("cab_param", 1, 1 if i % 4 < 3 else 0).op("cab_param", 3, 1 if i % 4 == 1 else 0)
-        sc.op("cab_open", "c0", "in0.cab").op("cab_extract_all", "c0", "out", 2).op("cab_close", "c0")
+        # all members in order, then backwards (each step back rebuilds the decoder), then forwards again
+        sc.op("cab_open", "c0", "in0.cab").op("cab_extract_all", "c0", "out", 3).op("cab_extract_all", "c0", "outr", 3, 1).op("cab_extract_all", "c0", "outf", 3).op("cab_close", "c0")
         out.append(Case("gen:cab-repair-params", "cab", sc, True, None, all_faults=True))
     return out
